@@ -1,3 +1,87 @@
-From FH Require Import Model.Base Model.CtxReset Spec.CtxResetSpec.
-Example C11_ex_placeholder : zero_after KCtxReset "Request.userValues"%string = true.
-Proof. reflexivity. Qed.
+(* C11 — No request observes state left over from an earlier request.  Statements only; proofs live
+   in Proof/CtxResetProof.v (resets, ctx pool, what a handler sees) and Proof/CtxLoopProof.v (the
+   per-connection locals of serveConnCounted).  Model: Model/CtxReset.v; spec: Spec/CtxResetSpec.v. *)
+From Coq Require Import String.
+From FH Require Import Model.Base Model.CtxReset Spec.CtxResetSpec Proof.CtxResetProof Proof.CtxLoopProof.
+Open Scope string_scope.
+Open Scope Z_scope.
+
+(* RequestCtx.reset (run by releaseCtx before a ctx goes back to the pool) and the loop-end reset
+   (ctx.Request.Reset(); ctx.Response.Reset() plus the hijack marks and the body stream) leave EVERY
+   observable field of ANY ctx at its zero value.  The resets are written assignment by assignment as
+   the Go functions; the field list is compared with the real structs by reflection on every run and the
+   zeroing of each field is compared with the real Reset functions on a fully dirtied object. *)
+Theorem C11_reset_is_fresh : forall m, fresh (RequestCtx_reset m) /\ fresh (loop_end_reset m).
+Proof. intros m. exact (conj (ctx_reset_is_fresh m) (loop_end_reset_is_fresh m)). Qed.
+Print Assumptions C11_reset_is_fresh.
+
+(* every field of RequestCtx (103 flattened paths) is either zeroed by RequestCtx.reset or listed as
+   configuration / scratch in the spec: nothing is unaccounted for *)
+Theorem C11_all_fields_classified :
+  forallb (fun f => zero_after KCtxReset f || mem f config_fields || mem f scratch_fields) all_fields = true.
+Proof. exact all_fields_classified. Qed.
+Print Assumptions C11_all_fields_classified.
+
+(* For any server (any pool of previously used ctx, each released through RequestCtx.reset), any number
+   of connections, any requests, handlers that overwrite the ctx arbitrarily (scribble: ANY function on
+   states) and time out at will (the loop then continues with another pooled or new ctx): what each
+   handler invocation observes is the parse of its own request into a zero ctx. *)
+Theorem C11_handler_sees_own_request : forall cfgv fr, fresh fr -> forall conns p,
+  pool_ok p ->
+  Forall2 (fun seens c => Forall2 (fun seen h => obs_eq seen (parse_into cfgv (rv_of h) zero)) seens (snd c))
+          (server_run cfgv fr p conns) conns.
+Proof. exact handler_sees_own_request. Qed.
+Print Assumptions C11_handler_sees_own_request.
+
+(* the statement depends on the resets: a loop-end reset that forgets one field is not fresh *)
+Theorem C11_forgetful_reset_leaks : exists m, ~ fresh (forgetful_reset m).
+Proof. exact forgetful_reset_leaks. Qed.
+Print Assumptions C11_forgetful_reset_leaks.
+
+(* Whether the handler is called, the status the server answers with, the body size limit and the
+   write deadline in force for a request are functions of the server configuration and of that request
+   alone (spec_dispatched, spec_status, spec_max, spec_wt) after ANY history on the connection:
+   rejected expectations, HeaderReceived overrides of earlier requests, timeouts, errors. *)
+Theorem C11_dispatch_independent_of_history : forall c qs q st,
+  wf_scfg c -> Forall wf_lreq qs -> wf_lreq q -> lafter c (linit c) qs = Some st ->
+  let d := fst (lstep c st q) in
+  d_dispatched d = spec_dispatched c q /\ d_status d = spec_status c q /\
+  (d_dispatched d = true -> d_max d = spec_max c q /\ d_wt d = spec_wt c q).
+Proof. exact dispatch_independent_of_history. Qed.
+Print Assumptions C11_dispatch_independent_of_history.
+
+(* The read deadline under which a request is read is the one its own HeaderReceived answer or the
+   server's ReadTimeout prescribe — PROVIDED the server has a ReadTimeout or IdleTimeout, or no earlier
+   request of the connection was given a per-request ReadTimeout ... *)
+Theorem C11_read_deadline_independent_of_history : forall c qs q st,
+  wf_scfg c -> lafter c (linit c) qs = Some st -> q_head_ok q = true ->
+  (0 < sc_readTimeout c \/ 0 < sc_idleTimeout c \/ no_override c qs) ->
+  d_rdl_body (fst (lstep c st q)) = spec_rdl_body c q.
+Proof. exact read_deadline_independent. Qed.
+Print Assumptions C11_read_deadline_independent_of_history.
+
+(* ... and without that proviso it is false (finding headerreceived-readtimeout-leaks): with no server
+   timeouts, a 5 s read deadline armed for one request stays armed for the next one *)
+Theorem C11_read_deadline_independent_of_history_refuted :
+  exists c qs q st, wf_scfg c /\ Forall wf_lreq (q :: qs) /\ lafter c (linit c) qs = Some st /\ q_head_ok q = true /\
+    d_rdl_body (fst (lstep c st q)) <> spec_rdl_body c q.
+Proof. exact read_deadline_independent_refuted. Qed.
+Print Assumptions C11_read_deadline_independent_of_history_refuted.
+
+(* non-vacuity *)
+Example C11_ex_reset_clears : RequestCtx_reset dirty "Request.userValues" = 0 /\ RequestCtx_reset dirty "Response.Header.statusCode" = 0
+  /\ RequestCtx_reset dirty "s" = 1 /\ loop_end_reset dirty "Request.Header.header.cookies" = 0.
+Proof. vm_compute. auto. Qed.
+Example C11_ex_rejection_does_not_stick :
+  let c := mkScfg 0 0 0 0 false false true false 0 false in
+  let rejected := mkLreq true 0 0 0 10 false false true 0 false HNone in
+  let plain := mkLreq true 0 0 0 0 false false false 0 false HNone in
+  map d_dispatched (fst (lrun c (linit c) [rejected; plain])) = [false] /\
+  map d_dispatched (fst (lrun c (linit c) [plain; plain])) = [true; true].
+Proof. vm_compute. auto. Qed.
+Example C11_ex_override_does_not_stick :
+  let c := mkScfg 0 0 0 500 true false false false 0 false in
+  let big_ok := mkLreq true 0 50 100000 1000 false false false 0 false HNone in
+  let big := mkLreq true 0 0 0 1000 false false false 0 false HNone in
+  map (fun d => (d_dispatched d, d_status d, d_wt d)) (fst (lrun c (linit c) [big_ok; big])) = [(true, 200, 50); (false, 400, 0)].
+Proof. vm_compute. reflexivity. Qed.
